@@ -12,7 +12,7 @@ DESIGN_REF = "DESIGN.md §9 C06, §12.C06"
 COQ_TARGETS = ["Properties/C06", "Pins/C06"]
 THEOREMS = [("PdfV.Properties.C06", n) for n in [
     "C06_rc4_involution", "C06_rc4_bad_key", "C06_pkcs7", "C06_tables", "C06_from_password_rc4_refines", "C06_open_user_rc4",
-    "C06_open_owner_rc4", "C06_wrong_pw_rc4", "C06_accepted_iff_rc4", "C06_plaintext", "C06_exempt", "C06_strf_refuted"]]
+    "C06_open_owner_rc4", "C06_wrong_pw_rc4", "C06_accepted_iff_rc4", "C06_kdf_refines", "C06_plaintext", "C06_exempt", "C06_strf_refuted"]]
 ANCHORS = ["crypt.rs"]
 MODES = ["rc4", "crypt_open", "crypt_dec", "crypt_doc"]
 TRUSTED_BASE = ["coqc 8.16.1 kernel (vm_compute for table lemmas and witnesses; no native_compute)",
